@@ -474,10 +474,21 @@ Theorem import_failure_skipped ev n merge rest base my s :
   alookup n (imps s) = None ->
   load_result W (fst (call W s)) n = LoadFail \/ load_result W (fst (call W s)) n = LoadNoParse ->
   env_go W ev ((n, merge) :: rest) base my s
-  = env_go W ev rest base my (bump (snd (emit (EvLoad n) (snd (call W s))))).
+  = env_go W ev rest base my
+      (snd (imps_set n {| is_evaluating := false; is_value := None |} (bump (snd (emit (EvLoad n) (snd (call W s))))))).
 Proof.
   intros H1 H2. rewrite env_go_cons, bind_eq. unfold imps_get at 1 2. cbn [fst snd]. rewrite H1.
-  rewrite bind_eq. cbv beta. rewrite bind_eq. destruct H2 as [-> | ->]; rewrite bind_eq; reflexivity.
+  rewrite bind_eq. cbv beta. rewrite bind_eq. destruct H2 as [-> | ->]; rewrite bind_eq, bind_eq; reflexivity.
+Qed.
+
+(* ... and the failure is remembered: a later listing of the same name (not in progress, no value) is skipped
+   without a load, a call, an event or a diagnostic *)
+Theorem import_remembered_failure_skipped ev n merge rest base my s i :
+  alookup n (imps s) = Some i -> is_evaluating i = false -> is_value i = None ->
+  env_go W ev ((n, merge) :: rest) base my s = env_go W ev rest base my s.
+Proof.
+  intros H1 H2 H3. rewrite env_go_cons, bind_eq. unfold imps_get at 1 2. cbn [fst snd]. rewrite H1, H2, H3.
+  reflexivity.
 Qed.
 
 Lemma load_result_fault n s : w_fault W = Some (calls s) -> load_result W (fst (call W s)) n = LoadFail.
